@@ -242,57 +242,57 @@ Fixpoint run (w : world) (h : list op) : world * list out :=
 Definition run_state (w : world) (h : list op) : world := fold_left (fun w o => fst (step w o)) h w.
 
 (* ------------------------------------------------------------------ conditions over externals *)
-Inductive num := NI (z : Z) | NF (q : Q).
+Inductive num := XNI (z : Z) | XNF (q : Q).
 
 Inductive nexp :=
-| NLitI (z : Z) | NLitF (q : Q) | NVar (x : ident)
-| NAdd (a b : nexp) | NSub (a b : nexp) | NMul (a b : nexp) | NNeg (a : nexp).
+| XNLitI (z : Z) | XNLitF (q : Q) | XNVar (x : ident)
+| XNAdd (a b : nexp) | XNSub (a b : nexp) | XNMul (a b : nexp) | XNNeg (a : nexp).
 
-Inductive sexp := SLit (s : bytes) | SVar (x : ident).
+Inductive sexp := XSLit (s : bytes) | XSVar (x : ident).
 
-Inductive cmp := CEq | CNe | CLt | CLe | CGt | CGe.
-Inductive sop := SEq | SNe | SContains | SIContains | SStartsWith | SIStartsWith | SEndsWith | SIEndsWith | SIEquals.
+Inductive cmp := XCEq | XCNe | XCLt | XCLe | XCGt | XCGe.
+Inductive sop := XSEq | XSNe | XSContains | XSIContains | XSStartsWith | XSIStartsWith | XSEndsWith | XSIEndsWith | XSIEquals.
 
 Inductive cond :=
-| CCmp (c : cmp) (a b : nexp)
-| CStr (o : sop) (a b : sexp)
-| CTruthN (a : nexp)            (* an integer (or boolean) expression used as a condition *)
-| CTruthS (a : sexp)            (* a string used as a condition: true iff non-empty *)
-| CNot (a : cond) | CAnd (a b : cond) | COr (a b : cond).
+| XCCmp (c : cmp) (a b : nexp)
+| XCStr (o : sop) (a b : sexp)
+| XCTruthN (a : nexp)            (* an integer (or boolean) expression used as a condition *)
+| XCTruthS (a : sexp)            (* a string used as a condition: true iff non-empty *)
+| XCNot (a : cond) | XCAnd (a b : cond) | XCOr (a b : cond).
 
-Definition to_q (n : num) : Q := match n with NI z => inject_Z z | NF q => q end.
+Definition to_q (n : num) : Q := match n with XNI z => inject_Z z | XNF q => q end.
 
 Definition arith (fi : Z -> Z -> Z) (fq : Q -> Q -> Q) (a b : num) : num :=
   match a, b with
-  | NI x, NI y => NI (wrap64 (fi x y))
-  | _, _ => NF (fq (to_q a) (to_q b))
+  | XNI x, XNI y => XNI (wrap64 (fi x y))
+  | _, _ => XNF (fq (to_q a) (to_q b))
   end.
 
 Fixpoint eval_n (env : objs) (e : nexp) : option num :=
   match e with
-  | NLitI z => Some (NI z)
-  | NLitF q => Some (NF q)
-  | NVar x => match lookup x env with Some (PI z) => Some (NI z) | Some (PF q) => Some (NF q) | _ => None end
-  | NAdd a b => match eval_n env a, eval_n env b with Some x, Some y => Some (arith Z.add Qplus x y) | _, _ => None end
-  | NSub a b => match eval_n env a, eval_n env b with Some x, Some y => Some (arith Z.sub Qminus x y) | _, _ => None end
-  | NMul a b => match eval_n env a, eval_n env b with Some x, Some y => Some (arith Z.mul Qmult x y) | _, _ => None end
-  | NNeg a => match eval_n env a with Some (NI x) => Some (NI (wrap64 (- x))) | Some (NF q) => Some (NF (Qopp q)) | None => None end
+  | XNLitI z => Some (XNI z)
+  | XNLitF q => Some (XNF q)
+  | XNVar x => match lookup x env with Some (PI z) => Some (XNI z) | Some (PF q) => Some (XNF q) | _ => None end
+  | XNAdd a b => match eval_n env a, eval_n env b with Some x, Some y => Some (arith Z.add Qplus x y) | _, _ => None end
+  | XNSub a b => match eval_n env a, eval_n env b with Some x, Some y => Some (arith Z.sub Qminus x y) | _, _ => None end
+  | XNMul a b => match eval_n env a, eval_n env b with Some x, Some y => Some (arith Z.mul Qmult x y) | _, _ => None end
+  | XNNeg a => match eval_n env a with Some (XNI x) => Some (XNI (wrap64 (- x))) | Some (XNF q) => Some (XNF (Qopp q)) | None => None end
   end.
 
 Definition eval_s (env : objs) (e : sexp) : option bytes :=
   match e with
-  | SLit s => Some s
-  | SVar x => match lookup x env with Some (PS s) => Some s | _ => None end
+  | XSLit s => Some s
+  | XSVar x => match lookup x env with Some (PS s) => Some s | _ => None end
   end.
 
 Definition cmp_z (c : cmp) (x y : Z) : bool :=
-  match c with CEq => Z.eqb x y | CNe => negb (Z.eqb x y) | CLt => Z.ltb x y | CLe => Z.leb x y
-             | CGt => Z.ltb y x | CGe => Z.leb y x end.
+  match c with XCEq => Z.eqb x y | XCNe => negb (Z.eqb x y) | XCLt => Z.ltb x y | XCLe => Z.leb x y
+             | XCGt => Z.ltb y x | XCGe => Z.leb y x end.
 Definition cmp_q (c : cmp) (x y : Q) : bool :=
-  match c with CEq => Qeq_bool x y | CNe => negb (Qeq_bool x y) | CLt => negb (Qle_bool y x) | CLe => Qle_bool x y
-             | CGt => negb (Qle_bool x y) | CGe => Qle_bool y x end.
+  match c with XCEq => Qeq_bool x y | XCNe => negb (Qeq_bool x y) | XCLt => negb (Qle_bool y x) | XCLe => Qle_bool x y
+             | XCGt => negb (Qle_bool x y) | XCGe => Qle_bool y x end.
 Definition cmp_num (c : cmp) (a b : num) : bool :=
-  match a, b with NI x, NI y => cmp_z c x y | _, _ => cmp_q c (to_q a) (to_q b) end.
+  match a, b with XNI x, XNI y => cmp_z c x y | _, _ => cmp_q c (to_q a) (to_q b) end.
 
 (* yr_lowercase under the "C" locale *)
 Definition ext_lower (b : N) : N := if (65 <=? b) && (b <=? 90) then b + 32 else b.
@@ -309,50 +309,50 @@ Fixpoint containsb (needle hay : bytes) : bool :=
 Definition str_op (o : sop) (a b : bytes) : bool :=
   let la := map ext_lower a in let lb := map ext_lower b in
   match o with
-  | SEq => bytes_eqb a b
-  | SNe => negb (bytes_eqb a b)
-  | SContains => containsb b a
-  | SIContains => containsb lb la
-  | SStartsWith => prefixb b a
-  | SIStartsWith => prefixb lb la
-  | SEndsWith => prefixb (rev b) (rev a)
-  | SIEndsWith => prefixb (rev lb) (rev la)
-  | SIEquals => bytes_eqb la lb
+  | XSEq => bytes_eqb a b
+  | XSNe => negb (bytes_eqb a b)
+  | XSContains => containsb b a
+  | XSIContains => containsb lb la
+  | XSStartsWith => prefixb b a
+  | XSIStartsWith => prefixb lb la
+  | XSEndsWith => prefixb (rev b) (rev a)
+  | XSIEndsWith => prefixb (rev lb) (rev la)
+  | XSIEquals => bytes_eqb la lb
   end.
 
 (* None: the condition does not type-check against the environment (a compile error in yara) *)
 Fixpoint eval_cond (env : objs) (c : cond) : option bool :=
   match c with
-  | CCmp k a b => match eval_n env a, eval_n env b with Some x, Some y => Some (cmp_num k x y) | _, _ => None end
-  | CStr o a b => match eval_s env a, eval_s env b with Some x, Some y => Some (str_op o x y) | _, _ => None end
-  | CTruthN a => match eval_n env a with Some (NI z) => Some (negb (Z.eqb z 0)) | _ => None end
-  | CTruthS a => match eval_s env a with Some s => Some (match s with [] => false | _ => true end) | None => None end
-  | CNot a => option_map negb (eval_cond env a)
-  | CAnd a b => match eval_cond env a, eval_cond env b with Some x, Some y => Some (andb x y) | _, _ => None end
-  | COr a b => match eval_cond env a, eval_cond env b with Some x, Some y => Some (orb x y) | _, _ => None end
+  | XCCmp k a b => match eval_n env a, eval_n env b with Some x, Some y => Some (cmp_num k x y) | _, _ => None end
+  | XCStr o a b => match eval_s env a, eval_s env b with Some x, Some y => Some (str_op o x y) | _, _ => None end
+  | XCTruthN a => match eval_n env a with Some (XNI z) => Some (negb (Z.eqb z 0)) | _ => None end
+  | XCTruthS a => match eval_s env a with Some s => Some (match s with [] => false | _ => true end) | None => None end
+  | XCNot a => option_map negb (eval_cond env a)
+  | XCAnd a b => match eval_cond env a, eval_cond env b with Some x, Some y => Some (andb x y) | _, _ => None end
+  | XCOr a b => match eval_cond env a, eval_cond env b with Some x, Some y => Some (orb x y) | _, _ => None end
   end.
 
 (* the same condition with every variable replaced by the literal of its current value *)
 Fixpoint subst_n (env : objs) (e : nexp) : nexp :=
   match e with
-  | NVar x => match lookup x env with Some (PI z) => NLitI z | Some (PF q) => NLitF q | _ => NVar x end
-  | NAdd a b => NAdd (subst_n env a) (subst_n env b)
-  | NSub a b => NSub (subst_n env a) (subst_n env b)
-  | NMul a b => NMul (subst_n env a) (subst_n env b)
-  | NNeg a => NNeg (subst_n env a)
+  | XNVar x => match lookup x env with Some (PI z) => XNLitI z | Some (PF q) => XNLitF q | _ => XNVar x end
+  | XNAdd a b => XNAdd (subst_n env a) (subst_n env b)
+  | XNSub a b => XNSub (subst_n env a) (subst_n env b)
+  | XNMul a b => XNMul (subst_n env a) (subst_n env b)
+  | XNNeg a => XNNeg (subst_n env a)
   | e => e
   end.
 Definition subst_s (env : objs) (e : sexp) : sexp :=
-  match e with SVar x => match lookup x env with Some (PS s) => SLit s | _ => SVar x end | e => e end.
+  match e with XSVar x => match lookup x env with Some (PS s) => XSLit s | _ => XSVar x end | e => e end.
 Fixpoint subst_c (env : objs) (c : cond) : cond :=
   match c with
-  | CCmp k a b => CCmp k (subst_n env a) (subst_n env b)
-  | CStr o a b => CStr o (subst_s env a) (subst_s env b)
-  | CTruthN a => CTruthN (subst_n env a)
-  | CTruthS a => CTruthS (subst_s env a)
-  | CNot a => CNot (subst_c env a)
-  | CAnd a b => CAnd (subst_c env a) (subst_c env b)
-  | COr a b => COr (subst_c env a) (subst_c env b)
+  | XCCmp k a b => XCCmp k (subst_n env a) (subst_n env b)
+  | XCStr o a b => XCStr o (subst_s env a) (subst_s env b)
+  | XCTruthN a => XCTruthN (subst_n env a)
+  | XCTruthS a => XCTruthS (subst_s env a)
+  | XCNot a => XCNot (subst_c env a)
+  | XCAnd a b => XCAnd (subst_c env a) (subst_c env b)
+  | XCOr a b => XCOr (subst_c env a) (subst_c env b)
   end.
 
 (* ------------------------------------------------------------------ the specification side: values by level,
